@@ -277,6 +277,17 @@ func runFuzz19(w *bufio.Writer, id int, seed int64) (fails int) {
 	call("Count", func() string { _, err := db.Count(of()); return cls(err) })
 	call("Control", func() string { return cls(db.Control()) })
 	call("All", func() string { _, err := db.All(of()); return cls(err) })
+	// time passes: whatever the first calls started in the background runs past every timeout (a
+	// goroutine started for a schema that was refused would panic here and kill the process)
+	call("Ticks", func() string {
+		for i := 0; i < 8; i++ {
+			if vshim.CountGoroutines("startAsyncWritesRoutine") == 0 {
+				break
+			}
+			vshim.Tick("startAsyncWritesRoutine", 5*time.Second)
+		}
+		return "ok"
+	})
 	call("Get", func() string { _, err := db.GetByUUID(of(), pick()); return cls(err) })
 	call("Exist", func() string { o := of(); o.Initialize(pick()); _, err := db.Exist(o); return cls(err) })
 	for k := 0; k < 6; k++ {
